@@ -703,6 +703,7 @@ pub fn run(run: &mut Run) -> Result<(), String> {
                     plan.raws.push((Box::new(TwoLines { enemy_kings: vec![35] }), b(if prop == "C10" { 1 } else { 0 }, 0)));
                 }
                 if prop == "C12" {
+                    plan.raws.push((Box::new(FourMen { kings: Some(cornered_king_placements()), with_flags: false }), b(0, 0)));
                     plan.raws.push((Box::new(DoubleCheck { kings: vec![4, 0], own_kinds: vec![Kind::P, Kind::N] }), b(0, 0)));
                 }
                 plan.raws.push((Box::new(ThreeMen { bk: if prop == "C07" { None } else { Some(sub8.clone()) } }), b(if prop == "C10" { 1 } else { 0 }, 1)));
